@@ -76,7 +76,12 @@ def gen_cases(rng, tier):
     for is_fd in (True, False):
         cases.append({"is_fd": is_fd, "verbose": False, "steps": [tiny, [{"arg": "big.dat", "content": {"rand": 3, "len": 5000}}], [{"arg": "one.d", "content": {"hex": "31"}}],
                                                                   [{"arg": "b2.dat", "content": {"rand": 4, "len": 2041}}, {"arg": "b3.dat", "content": {"rand": 5, "len": 40000}}]]})
-    return cases, {"random": n, "fixed": 2}
+    # a name the catalogue cannot encode (not 7-bit): it is refused on every side; a refusal changes nothing
+    for is_fd in (True, False):
+        cases.append({"is_fd": is_fd, "verbose": is_fd, "steps": [[{"arg": "a.dat", "content": {"rand": 6, "len": 3000}}],
+                                                                   [{"arg": "\u00c9T\u00c9.DAT", "content": {"hex": "414243"}}],
+                                                                   [{"arg": "c.dat", "content": {"rand": 7, "len": 300}}, {"arg": "N.\u20ac", "content": {"hex": "31"}}]]})
+    return cases, {"random": n, "fixed": 4}
 
 
 def run_case(case, ctx):
